@@ -126,6 +126,11 @@ func checkC17(c *FmtCase) Result {
 		}
 	}
 	res.NonTrivial = c.HasHook && len(exp) > 0 && (nested || format != "%v")
+	for _, op := range c.Hook {
+		if op.K == "Panic" {
+			res.Classes = append(res.Classes, "hook-panics")
+		}
+	}
 	for _, e := range exp {
 		res.Classes = append(res.Classes, fmt.Sprintf("hooked:%s:%%%c", e.kind, e.verb))
 	}
@@ -154,6 +159,22 @@ func checkC17(c *FmtCase) Result {
 		}
 		return res
 	}
+	// a panicking method of a nil pointer is reported as "<nil>" (as in fmt);
+	// the stand-in is a struct, never a nil pointer
+	hookPanics := false
+	for _, op := range c.Hook {
+		if op.K == "Panic" {
+			hookPanics = true
+		}
+	}
+	if hookPanics {
+		for _, e := range exp {
+			if e.kind == "nilerr" {
+				res.Classes = append(res.Classes, "panicking-hook-on-nil-receiver")
+				return res
+			}
+		}
+	}
 	// run 2: the stand-in shape
 	hookLog = hookLog[:0]
 	standinLog = standinLog[:0]
@@ -168,6 +189,9 @@ func checkC17(c *FmtCase) Result {
 	if len(hookLog) != 0 {
 		return fail("the hook was called %d times in the stand-in run (for errors that are SafeFormatters, or in positions that are not dispatched)", len(hookLog))
 	}
+	// a panic in the hook is reported under the name "SafeFormatter", one in
+	// the stand-in's SafeFormat method under "SafeFormat"
+	want.out = bytes.ReplaceAll(want.out, []byte("(PANIC=SafeFormat method: "), []byte("(PANIC=SafeFormatter method: "))
 	if !bytes.Equal(got.out, want.out) {
 		return fail("with the hook: %s; with every dispatched error replaced by a SafeFormatter running the hook's script: %s", q(got.out), q(want.out))
 	}
@@ -182,6 +206,19 @@ func checkC17(c *FmtCase) Result {
 	}
 	if len(calls) != len(exp) {
 		return fail("hook called %d times, but %d error operands are in dispatched positions (%v)", len(calls), len(exp), exp)
+	}
+	// ... and with the active verb ('v' for the %w of HelperForErrorf)
+	var gotVerbs, wantVerbs []string
+	for _, c := range calls {
+		gotVerbs = append(gotVerbs, string(c.Verb))
+	}
+	for _, e := range exp {
+		wantVerbs = append(wantVerbs, string(e.verb))
+	}
+	sort.Strings(gotVerbs)
+	sort.Strings(wantVerbs)
+	if strings.Join(gotVerbs, ",") != strings.Join(wantVerbs, ",") {
+		return fail("the hook received the verbs %v, the directives reaching the errors are %v", gotVerbs, wantVerbs)
 	}
 	for i := range exp {
 		_ = i
